@@ -96,6 +96,10 @@ func (a sortableNodeArray) Less(i, j int) bool {
 	return lhsContext.MatchingNodes.Len() < rhsContext.MatchingNodes.Len()
 }
 
+func isNumberTag(tag string) bool {
+	return tag == "!!int" || tag == "!!float"
+}
+
 func (a sortableNodeArray) compare(lhs *CandidateNode, rhs *CandidateNode, dateTimeLayout string) int {
 	lhsTag := lhs.Tag
 	rhsTag := rhs.Tag
@@ -154,6 +158,13 @@ func (a sortableNodeArray) compare(lhs *CandidateNode, rhs *CandidateNode, dateT
 			return -1
 		}
 
+		return 1
+	} else if !isDateTime && isNumberTag(lhsTag) != isNumberTag(rhsTag) {
+		// numbers sort before everything that is not a number; comparing the spellings
+		// instead gave cycles such as 9 < 10 < "1x" < 9
+		if isNumberTag(lhsTag) {
+			return -1
+		}
 		return 1
 	} else if lhsTag == "!!int" && rhsTag == "!!int" {
 		_, lhsNum, err := parseInt64(lhs.Value)
